@@ -59,8 +59,9 @@ def replay_chunk(ctx, texts):
         # every third behaviour: the same instants as time-zone aware stamps whose UTC offset changes from call to call
         # (elapsed time is a difference of instants, not of wall-clock readings)
         aware = out["n"] % 3 == 2
+        tick = Decimal(str(ctx.get("tick", 1)))            # seconds per model time unit (1/4 s in the sub-second model)
         for i, op in enumerate(ops):
-            t = BASE + timedelta(seconds=op["t"])
+            t = BASE + timedelta(seconds=float(op["t"] * tick))
             if aware:
                 from datetime import timezone
                 t = t.replace(tzinfo=timezone.utc).astimezone(timezone(timedelta(hours=(0, 1, -1, 2)[(i + op["t"]) % 4])))
@@ -82,14 +83,14 @@ def replay_chunk(ctx, texts):
                     bad = (i, "reject", "a rejected accrual changed the balance")
                     break
                 continue
-            before = closed(regime, sign, op["from"])
-            amount = before * (base_of(regime, sign) ** (Decimal(op["span"]) / Y) - 1)
+            before = closed(regime, sign, op["from"] * tick)
+            amount = before * (base_of(regime, sign) ** (Decimal(op["span"]) * tick / Y) - 1)
             if not rel_close(val, amount, Decimal("1e-9")) and not rel_close(val, amount, Decimal("1e-9") * max(Decimal(1), abs(before))):
                 bad = (i, "idle_profit" if op["op"] == "rebalance" else "amount",
                        "%s at t=%s returned %r, closed form %s (regime %s, sign %s, balance compounded over %s s, span %s s)" % (
                            op["op"], op["t"], val, amount, regime, sign, op["from"], op["span"]))
                 break
-            after = closed(regime, sign, op["from"] + (op["span"] if op["op"] != "query" else 0))
+            after = closed(regime, sign, (op["from"] + (op["span"] if op["op"] != "query" else 0)) * tick)
             if not rel_close(bal, after):
                 bad = (i, "pure" if op["op"] == "query" else "balance",
                        "balance %r after %s at t=%s, closed form %s" % (bal, op["op"], op["t"], after))
@@ -127,6 +128,13 @@ def c06(tier, seed):
     cfg = tlagen.cfg(defs, {"MaxCalls": maxcalls, "MaxT": 2000000000}, invariants=inv, properties=props)
     explore.explore_and_replay(rep, "interest", module, cfg, ("harness.interest_check", "replay_chunk"),
                                {"maxcalls": maxcalls}, set(CLAUSE_PROPS), inv, props, chunk=400)
+    # sub-second stamps: the same specification with a time unit of 1/4 s (increments of 1, 3 and 5 units, and an hour): elapsed
+    # time is not rounded to whole seconds, and a time 1/4 s earlier than the last accrual is an earlier time
+    defs2 = {"Regimes": {"r3m1", "minus"}, "Signs": {1000, -1000}, "Incs": {1, 3, 5, 14400}}
+    cfg2 = tlagen.cfg(defs2, {"MaxCalls": maxcalls, "MaxT": 2000000000}, invariants=inv, properties=props)
+    explore.explore_and_replay(rep, "interest-subsecond", tlagen.mc_module("MC", "Interest", defs2), cfg2,
+                               ("harness.interest_check", "replay_chunk"), {"maxcalls": maxcalls, "tick": "0.25"},
+                               set(CLAUSE_PROPS), inv, props, chunk=400)
     # whole-year accruals inside the full account (a margined position is open: margin earns nothing)
     m = broker_check.model("years-margined", ["S5", "F5"], ["quote", "trade", "accrue", "query", "value", "lots"],
                            4 if tier == "quick" else 5, fees="free", rate=F(1, 8), markup=F(1, 16), steps=(1, 2), maxclk=3,
